@@ -277,10 +277,10 @@ def digraph_flower(rng, max_routes=3, wmax=5, max_rep=2, float_w=False, zero_pet
             "zero_flow_edges": [list(e) for e in order if flow[e] == 0]}
 
 
-def digraph_cyclic(rng, max_nodes=5, max_edges=6, max_routes=3, wmax=5, max_rep=2, float_w=False, flower_p=0.3):
+def digraph_cyclic(rng, max_nodes=5, max_edges=6, max_routes=3, wmax=5, max_rep=2, float_w=False, flower_p=0.3, zero_petal_p=0.2):
     """Digraph with cycles; flow = superposition of source-to-sink walks that wind cycles."""
     if rng.random() < flower_p:
-        return digraph_flower(rng, max_routes=max_routes, wmax=wmax, max_rep=max_rep, float_w=float_w, max_edges=max_edges + 1)
+        return digraph_flower(rng, max_routes=max_routes, wmax=wmax, max_rep=max_rep, float_w=float_w, max_edges=max_edges + 1, zero_petal_p=zero_petal_p)
     n = rng.randint(3, max(3, max_nodes))
     ns = names(rng, n)
     # backbone path(s)
